@@ -39,6 +39,10 @@ def cases(tier, seed):
         yield {"mode": "ids", "config": {"id": "m", "initial": flat, "states": states}, "events": ["E1"], "kinds": {}, "path": [flat], "repl": None}
     yield {"mode": "corrupt", "config": {"id": "m", "initial": "a", "states": {"a": {"on": {"E1": {"target": 5}}}, "b": {}}},
            "events": ["E1"], "kinds": {}, "path": ["fixed-nonstring-target"], "repl": 5, "fixed": True}
+    # regression input of a fixed defect (known_findings.json "fixed": C01/C18 e3c2b68): `initial` naming a history pseudo-state
+    yield {"mode": "corrupt", "config": {"id": "m", "initial": "a", "states": {"a": {"initial": "h", "states": {
+               "h": {"type": "history"}, "x": {}}}}}, "events": [], "kinds": {}, "path": ["fixed-initial-names-history"], "repl": "h",
+           "fixed": True, "must_reject": True}
     for c in M.gen_cases(seed * 472882027 + 2, 60 if tier == "quick" else 400, max_nodes=5, features={"after": 0.3, "history": 0.3}):
         paths = list(_paths(c["config"], []))
         rng.shuffle(paths)
@@ -253,6 +257,8 @@ def post_check(case, res):
         return out
     if res.get("dups"):
         out.append({"key": "ids:ambiguous-state-ids-accepted", "detail": f"{res['dups']} both denote two different states of {json.dumps(case['config'])[:300]}"})
+    if case.get("must_reject") and res["stage"] == "ok":
+        out.append({"key": "corrupt/accepted:uninterpretable-definition-accepted", "detail": f"path={case['path']}: created, started and ran without any library error"})
     if res["exc"] and res["exc"][0] == "raw":
         out.append({"key": f"corrupt/{res['stage']}:raw-{res['exc'][1]}", "detail": f"path={case['path']} repl={case['repl']!r}: {res['exc'][2]}"})
     return out
